@@ -308,6 +308,14 @@ class TreeLikelihoodModel(CallableModel):
             self.partials, self.weights = site_pattern.compute_tips_partials(
                 use_ambiguities
             )
+        # tip data follow the taxon names: the pattern's Taxa object may list the
+        # taxa in another order than the tree's
+        pattern_taxa = getattr(site_pattern, 'alignment', site_pattern).taxa
+        pattern_ids = [taxon.id for taxon in pattern_taxa]
+        if pattern_ids != list(tree_model.taxa):
+            self.partials = [
+                self.partials[pattern_ids.index(taxon)] for taxon in tree_model.taxa
+            ]
         self.partials.extend([None] * (len(tree_model.taxa) - 1))
 
     def _call(self, *args, **kwargs) -> torch.Tensor:
